@@ -575,6 +575,16 @@ pub(crate) trait RegionHandler {
     fn has_fixed_channel_plan(&self) -> bool;
 
     fn rx1_dr_offset_validate(&self, value: u8) -> Option<u8>;
+
+    #[cfg(feature = "verif-hooks")]
+    fn verif_plan(&self) -> crate::verif::VerifPlan;
+}
+
+#[cfg(feature = "verif-hooks")]
+impl Configuration {
+    pub(crate) fn verif_plan(&self) -> crate::verif::VerifPlan {
+        region_dispatch!(self, verif_plan)
+    }
 }
 
 #[cfg(test)]
